@@ -73,6 +73,45 @@ pub fn compile_program(sources: &[(String, String)], entry: &str) -> Result<Emit
   }
 }
 
+/// The same pipeline with several entry points: one `Emitted` per entry, in the order given (they
+/// share the binary; the launcher of each entry is read from `<entry>.wasm.js` / `<entry>.ts`).
+pub fn compile_program_entries(sources: &[(String, String)], entries: &[String]) -> Result<Vec<Emitted>, CompileFail> {
+  let r = crate::run::guarded(|| {
+    let mut heap = Heap::new();
+    let mut handles: HashMap<ModuleReference, String> = HashMap::new();
+    for (m, s) in samlang_parser::builtin_std_raw_sources(&mut heap) {
+      handles.insert(m, s);
+    }
+    for (name, text) in sources {
+      let m = module_ref(&mut heap, name);
+      handles.insert(m, text.clone());
+    }
+    let entry_refs: Vec<ModuleReference> = entries.iter().map(|e| module_ref(&mut heap, e)).collect();
+    match samlang_compiler::compile_sources(&mut heap, handles, entry_refs, false) {
+      Err(e) => Err(CompileFail::Rejected(e)),
+      Ok(res) => Ok(
+        entries
+          .iter()
+          .map(|entry| {
+            let wasm_js = res.text_code_results.get(&format!("{entry}.wasm.js")).cloned().unwrap_or_default();
+            Emitted {
+              wasm: res.wasm_file.clone(),
+              ts: res.text_code_results.get(&format!("{entry}.ts")).cloned().unwrap_or_default(),
+              wasm_entry: wasm_js.rsplit_once("(binary).").map(|(_, r)| r.trim().trim_end_matches("();").to_string()).unwrap_or_default(),
+              loader_js: res.text_code_results.get("__samlang_loader__.js").cloned().unwrap_or_default(),
+              wat: String::new(),
+            }
+          })
+          .collect(),
+      ),
+    }
+  });
+  match r {
+    Ok(r) => r,
+    Err(p) => Err(CompileFail::Panicked(p)),
+  }
+}
+
 /// Independent validation of the emitted binary (GC proposal etc. enabled).
 pub fn validate_wasm(bytes: &[u8]) -> Result<(), String> {
   let mut v = wasmparser::Validator::new_with_features(wasmparser::WasmFeatures::all());
